@@ -48,6 +48,17 @@ extern "C" int h_c06() {
     c.point("newp");
   } else if (mode == 5) {
     c.analog("newa");
+  } else if (mode == 6 || mode == 7) {   // extend beyond the end (gap frames), then add a column: every frame gains exactly that column
+    Frame f = sym_frame(P, C, S, "new");
+    c.frame(f, (size_t)n + __vp_cfg("beyond"));
+    dump_d(c, "extended");
+    if (mode == 6) c.point("newp");
+    else {
+      std::vector<Frame> v; const int total = n + __vp_cfg("beyond") + 1;
+      for (int k = 0; k < total; ++k) { Frame fr; Points pts; Point p; p.name("newp"); p.x(__vp_sym_f32("col")); p.y(__vp_sym_f32("col")); p.z(__vp_sym_f32("col")); p.residual(__vp_sym_f32("col")); pts.point(p); fr.add(pts); v.push_back(fr); }
+      __vp_tag("given"); for (int k = 0; k < total; ++k) dump_frame(v[k], true);
+      c.point(v);
+    }
   }
   dump_d(c, "after");
   __vp_reached("c06.end");
